@@ -40,7 +40,7 @@ var commonAssumptions = []string{
 
 var properties = []Property{
 	{ID: "C01", Title: "expressions evaluate to the defined value", Level: "other",
-		Rules:       []string{"R-OPMAP", "R-OPTABLE", "R-DIVGUARD", "R-UNARY", "R-MATCHCELLS", "R-MEMBERSHIP", "R-LOGICCELLS", "R-CONSTDEDUP", "R-SCRIPTINDEX"},
+		Rules:       []string{"R-OPMAP", "R-OPTABLE", "R-DIVGUARD", "R-UNARY", "R-MATCHCELLS", "R-MEMBERSHIP", "R-LOGICCELLS", "R-CONSTDEDUP", "R-SCRIPTINDEX", "R-FOLDRESET"},
 		Explanation: "Static table extraction over the type-checked AST: the compiler's operator→opcode map and every cell of the VM's five operator tables (Go operator, operand order, result type, sibling coverage, singleton pushes, division guard) are compared with the tables the language definition gives.",
 		NotDecided:  "values Go arithmetic produces; cells computed by calls other than power/substring (regexp match); dispatch on operand types beyond C05's clause; nesting; integer % by zero (a recovered panic, which the property allows as an error).",
 		Assumptions: commonAssumptions},
@@ -55,22 +55,22 @@ var properties = []Property{
 		NotDecided:  "observational equivalence of optimized and unoptimized programs in general.",
 		Assumptions: commonAssumptions},
 	{ID: "C13", Title: "invalid scripts are rejected", Level: "other",
-		Rules:       []string{"R-NILERR", "R-ERRPROP", "R-BLOCKOPEN", "R-TOPSTOP", "R-TERNGUARD", "R-LOCALGUARD", "R-EOFSENTINEL", "R-NAMETOKEN", "R-FUNCFLAG"},
+		Rules:       []string{"R-NILERR", "R-ERRPROP", "R-BLOCKOPEN", "R-TOPSTOP", "R-TERNGUARD", "R-LOCALGUARD", "R-EOFSENTINEL", "R-NAMETOKEN", "R-FUNCFLAG", "R-SEENTOKEN"},
 		Explanation: "SSA dataflow over the parser and compiler: a parse function returns nil only after an error was recorded (must-dataflow with callee summaries, through the registered parselet tables), Parse turns a non-empty error list into an error, every error-valued call has its error looked at and never replaced by nil, blocks are parsed only after '{' was demanded, the top-level loop stops only at end of input, nested ternaries and `local` outside functions are rejected.",
 		NotDecided:  "that each individual syntax check is the right check (needs a grammar as oracle).",
 		Assumptions: commonAssumptions},
 	{ID: "C04", Title: "host object fields", Level: "other",
-		Rules:       []string{"R-NONNIL", "R-RUNRESET", "R-LOOKUPORDER", "R-KINDTABLE", "R-COMMAOK"},
+		Rules:       []string{"R-NONNIL", "R-RUNRESET", "R-LOOKUPORDER", "R-KINDTABLE", "R-COMMAOK", "R-PUREARGS"},
 		Explanation: "Conversion of host fields is total and never yields a nil object (SSA nil-source analysis with function summaries over every Object-returning function and every push/store sink), every run and nested call starts from an empty field cache, and names resolve as variable, then field, then null (dominance in the resolver).",
 		NotDecided:  "lossless conversion per kind, order and length of arrays, nested maps: values produced by reflection at run time.",
 		Assumptions: commonAssumptions},
 	{ID: "C05", Title: "one notion of truth", Level: "other",
-		Rules:       []string{"R-IDENTITY", "R-LOGICDISPATCH", "R-TRUTHDEF", "R-TRUTHSITES", "R-RUNEXEC", "R-LOGICCELLS", "R-UNARY", "R-OPTCLOSED"},
+		Rules:       []string{"R-IDENTITY", "R-LOGICDISPATCH", "R-TRUTHDEF", "R-TRUTHSITES", "R-RUNEXEC", "R-LOGICCELLS", "R-UNARY", "R-OPTCLOSED", "R-CONDDIRECT"},
 		Explanation: "No identity comparison of objects anywhere in the library (SSA; matcher self-tested on a built-in example), && and || are reachable for every operand type pair (clause order of the dispatcher against the extracted tables), every True() body is the language's definition, consumers of truth call True(), and Run is True() of Execute's object with Execute's error.",
 		NotDecided:  "the values of comparisons themselves.",
 		Assumptions: commonAssumptions},
 	{ID: "C08", Title: "no crash of the host", Level: "other",
-		Rules:       []string{"R-RECOVER", "R-NONNIL", "R-RECURSION", "R-ERRPROP", "R-FRAMERESTORE", "R-MACHINENIL", "R-COMMAOK", "R-LOCKPAIR", "R-FOLDSAFE", "R-USEBEFORECHECK"},
+		Rules:       []string{"R-RECOVER", "R-NONNIL", "R-RECURSION", "R-ERRPROP", "R-FRAMERESTORE", "R-MACHINENIL", "R-COMMAOK", "R-LOCKPAIR", "R-FOLDSAFE", "R-USEBEFORECHECK", "R-PREPAREFRESH", "R-INDEXRESULT"},
 		Explanation: "Execute recovers and sets both results, Run does nothing that can panic afterwards, no nil object escapes, unbounded recursion reachable from the API is enumerated (Tarjan SCCs of the VTA call graph; each needs a depth guard), errors are propagated, and the machine is restored after a failed call so the evaluator remains usable.",
 		NotDecided:  "memory exhaustion; panics inside the recover region (they become errors, which the property allows); panics in Prepare/Dump outside recursion (see R-PANICSITES when built); host-supplied Object implementations.",
 		Assumptions: commonAssumptions},
@@ -80,17 +80,17 @@ var properties = []Property{
 		NotDecided:  "the length of the delay: a single instruction (regexp match, sort, a huge range) may run long; Go scheduling.",
 		Assumptions: commonAssumptions},
 	{ID: "C06", Title: "functions and scopes", Level: "other",
-		Rules:       []string{"R-SCOPEPAIR", "R-SCOPERESTORE", "R-BINDINNER", "R-FRAMERESTORE", "R-LOCALGUARD", "R-CALLPROTO", "R-SCOPESEARCH"},
+		Rules:       []string{"R-SCOPEPAIR", "R-SCOPERESTORE", "R-BINDINNER", "R-FRAMERESTORE", "R-LOCALGUARD", "R-CALLPROTO", "R-SCOPESEARCH", "R-SCOPEFRESH"},
 		Explanation: "SSA dominance and call-graph checks on the call protocol: the callee's scope is opened before parameters are bound, binding goes to the innermost scope, scopes and the swapped VM fields are restored by deferred code (by absolute depth / to the pre-swap values) on every exit, loops open and close their scope, `local` only inside functions.",
 		NotDecided:  "innermost-first lookup order and the redirect of assignments to an existing local (loop direction over run-time data); results of recursion; built-in-before-user lookup order.",
 		Assumptions: commonAssumptions},
 	{ID: "C07", Title: "no hidden state between runs", Level: "other",
-		Rules:       []string{"R-STATECENSUS", "R-RUNRESET", "R-FRAMERESTORE", "R-SCOPERESTORE", "R-NOMUT", "R-PREPAREFRESH"},
+		Rules:       []string{"R-STATECENSUS", "R-RUNRESET", "R-FRAMERESTORE", "R-SCOPERESTORE", "R-NOMUT", "R-PREPAREFRESH", "R-SCOPEFRESH"},
 		Explanation: "Ownership/effect argument: a census of every struct field, map and package variable written by code reachable from the interpreter (VTA call graph) must fall into a classified group, and each class's obligation is checked: reset at interpreter entry, restored by defer on every exit, scope stack restored by depth, mutation only on private copies.",
 		NotDecided:  "cost growth other than through the scope stack and value stack; state inside host-supplied objects and functions.",
 		Assumptions: commonAssumptions},
 	{ID: "C15", Title: "numbers, strings and booleans are values", Level: "other",
-		Rules:       []string{"R-NOMUT", "R-CONSTDEDUP"},
+		Rules:       []string{"R-NOMUT", "R-CONSTDEDUP", "R-PUREARGS"},
 		Explanation: "Immutability argument: if no code reachable from the interpreter mutates a value object other than a private copy (receiver-mutating methods are only invoked on results of a copier covering every library type that has them; nothing else stores into object fields), then sharing pointers between variables, the constant pool and the field cache is unobservable — which is the property inside the library.",
 		NotDecided:  "objects of host-defined types implementing the increment/iteration interfaces.",
 		Assumptions: commonAssumptions},
@@ -116,7 +116,7 @@ var properties = []Property{
 		NotDecided:  "the '.' rewrite of field access, postfix ++/-- being separate statements, what the compiler does with the tree.",
 		Assumptions: commonAssumptions},
 	{ID: "C14", Title: "literals and layout", Level: "other",
-		Rules:       []string{"R-LEXPROGRESS", "R-EOFSENTINEL", "R-ESCAPES", "R-CONSTDEDUP", "R-DIVCONTEXT", "R-COMMENTCTX"},
+		Rules:       []string{"R-LEXPROGRESS", "R-EOFSENTINEL", "R-ESCAPES", "R-CONSTDEDUP", "R-DIVCONTEXT", "R-COMMENTCTX", "R-NUMBASE", "R-TOKENPROGRESS"},
 		Explanation: "Narrow claim. Tokenisation terminates for every input: the advance function moves forward unconditionally, every lexer loop advances on every cycle and has an exit taken at the end-of-input sentinel (loop conditions are evaluated with the sentinel substituted, predicates included), and the lexer does not recurse. End of input is decided by position, not by a character value. The string reader's escape table is the language's.",
 		NotDecided:  "what regexp and numeric literals denote, the division-vs-regexp decision, that layout and comments never change the token sequence: character-level value semantics.",
 		Assumptions: commonAssumptions},
@@ -131,17 +131,17 @@ var properties = []Property{
 		NotDecided:  "nothing structural remains; what remains is values (and now()/time()/getenv(), which the property excludes).",
 		Assumptions: commonAssumptions},
 	{ID: "C17", Title: "built-in contracts", Level: "other",
-		Rules:       []string{"R-ARGGUARD", "R-PUREARGS", "R-NUMORDER", "R-LENKIND", "R-TIMEFIELDS", "R-USEBEFORECHECK"},
+		Rules:       []string{"R-ARGGUARD", "R-PUREARGS", "R-NUMORDER", "R-LENKIND", "R-TIMEFIELDS", "R-USEBEFORECHECK", "R-JOINSHAPE", "R-NUMBASE"},
 		Explanation: "Narrow claim. Totality on wrong arity/type: every args[k] and every unchecked assertion of an argument is guarded by a dominating length / Type() test (abstract interpretation over length sets and type facts, with helper functions checked at their call sites). Inputs unchanged: no built-in stores into, sorts in place or mutates anything reachable from its arguments. min/max/between: no ordering by printed form is reachable when both arguments are numbers, the numeric helper computes left < right, min returns the smaller and max the larger argument, between is false exactly when v < lo or hi < v.",
 		NotDecided:  "every value-level contract: join(split(s,d),d) == s, sort's permutation property, conversions, time decomposition, string helpers.",
 		Assumptions: commonAssumptions},
 	{ID: "C20", Title: "front ends", Level: "other",
-		Rules:       []string{"R-RUNEXEC", "R-ENVSHARE", "R-VOIDPUSH", "R-FLAGONLY", "R-NOINJECT", "R-CTXFLOW", "R-DRIVER", "R-POPORDER", "R-SCOPERESTORE"},
+		Rules:       []string{"R-RUNEXEC", "R-ENVSHARE", "R-VOIDPUSH", "R-FLAGONLY", "R-NOINJECT", "R-CTXFLOW", "R-DRIVER", "R-POPORDER", "R-SCOPERESTORE", "R-LOCKSET", "R-FMTCONST"},
 		Explanation: "Narrow claim. Run is True() of Execute's object with Execute's error; the API methods pass their own arguments to the one environment the machine was built on; call results are pushed exactly when not void; the NoOptimize flag guards only the optimizer switch; the library injects no variables; the context flows SetContext → Prepare → VM; the command-line driver sets the context before Prepare, plumbs -no-optimizer and the decoded JSON document, reports type/value/truth of Execute's result and recovers panics.",
 		NotDecided:  "argument order of host calls (index arithmetic over run-time counts), what the driver prints character by character, the lex/parse sub-commands' output.",
 		Assumptions: commonAssumptions},
 	{ID: "C18", Title: "well-formed code", Level: "other",
-		Rules:       []string{"R-EMITLEN", "R-HANDLERS", "R-PATCHALL", "R-JOINPH", "R-JUMPSET", "R-OPBOUNDARY", "R-NARROW", "R-CONSTDEDUP", "R-FOLDRESET"},
+		Rules:       []string{"R-EMITLEN", "R-HANDLERS", "R-PATCHALL", "R-JOINPH", "R-JUMPSET", "R-OPBOUNDARY", "R-NARROW", "R-CONSTDEDUP", "R-FOLDRESET", "R-BODYSTATE", "R-OPTCLOSED"},
 		Explanation: "Emitter-side structural checks: operand presence agrees with code.Length at every emit site and handler, every opcode is handled, every placeholder is patched, every forward label is followed by an instruction, jump sets agree, opcodes are only read at instruction pointers, 16-bit operands are range-checked.",
 		NotDecided:  "stack balance and jump targets of a given emitted program (properties of Prepare's output).",
 		Assumptions: commonAssumptions},
